@@ -532,6 +532,11 @@ class Verdict:
 
     # ---- the verdict written as find(..) ----------------------------------
     def on_variant(self, eng, st, inner, v, b):
+        # `iter().map(..).max()` / `min()` yielding None: the trace result is empty, there is nothing to compare
+        if inner[0] == "call" and inner[2] in ("core::iter::Iterator::max", "core::iter::Iterator::min") and len(inner[3]) == 1 and v == "0":
+            src0 = iter_source(inner[3][0])
+            if src0 is not None and src0[0] == "map":
+                return add(st, ("verdict_checked", src0[1]))
         if inner[0] == "call" and inner[2] in ("core::iter::Iterator::find", "core::iter::Iterator::position", "core::iter::Iterator::find_map") and len(inner[3]) >= 2 and v in ("0", "1"):
             src = iter_source(inner[3][0])
             if src is None or src[0] != "map":
